@@ -96,7 +96,10 @@ def run(ctx):
                 "succeeds and sets up at least two products; distinct = distinct (world, requests, env0)")
     ctx.trusted_base = common.COMMON_TRUSTED + [
         "two model runs per request: Model/Setup.v fed with the decisions of the real resolver (captured by a spy), and "
-        "the composed model Model/SetupFull.v (setup + the resolver of C03) fed with NO decisions; compared: success, "
+        "the composed model Model/SetupFull.v (setup + the resolver of C03) fed with NO decisions - with the "
+        "dotted-numeric comparator on worlds with the version names 1.0 2.0 3.0, and with the comparator and matcher of "
+        "C10 (coq/Model/ResolveReal.v, real-comparator-comparisons) on every world, those of gen_world_versions "
+        "(version names of C10's grammar, relational expressions over them) included; compared: success, "
         "environment, aliases, decisions; a third run, the text-fed model Model/SetupText.v (C11's parser model, "
         "expandEupsVariables, command kinds, processArgs, then Model/Setup.v) starts from the table texts and is fed "
         "the same decisions; every table is also compared action by action",
@@ -104,7 +107,8 @@ def run(ctx):
         "app.setup emits them (define, then remove the old names that are not defined again)"]
     ctx.assumptions = ["one stack, one flavor, declared products only", "WF2 of Proofs/SetupInv.v for the theorems",
                        "unsetup_inverts_setup: the hypotheses of closure_exact (conflict_free: no product requested in two "
-                       "versions; no --max-depth / --just / -j line / keep; wf_db; total order on the version names), Inv "
+                       "versions; no --max-depth / --just / -j line / keep; wf_db; total order on the version names - for the "
+                       "real comparator: fw_real_ok, or fw_conv and db_sorted with the rule read in vcmp_sorted), Inv "
                        "and fresh_for of the start state (no variable or alias that a reachable product owns is set: "
                        "outside it finding D11 applies); the code after the fix of D36 (popStack env restores the aliases)"]
     ctx.check_theorems()
@@ -118,6 +122,14 @@ def run(ctx):
     textual = [S.gen_scenario_text(ctx.rng, inverse=True) for _ in range(ctx.size(60, 900))]
     for i in range(0, len(textual), 400):
         S.run_scenarios(ctx, textual[i:i + 400], oracle)
+
+
+    # setup then unsetup on worlds with version names of C10's grammar: the composed model with the real comparator
+    # (coq/Model/ResolveReal.v) decides every version
+    versions = [s for s in S.directed_version_scenarios() if len(s["requests"]) == 2] + \
+               [S.gen_scenario_versions(ctx.rng, "inverse") for _ in range(ctx.size(100, 1200))]
+    for i in range(0, len(versions), 400):
+        S.run_scenarios(ctx, versions[i:i + 400], oracle)
 
 
 def replay(ctx, path):
